@@ -95,6 +95,42 @@ fn main() {
             let mut rng = rng::Rng::new(seed);
             println!("{}", run::run_case(&c, &mut rng));
         }
+        "child-src" => {
+            // source text on stdin: compile and evaluate it, print the outcome
+            std::thread::spawn(|| {
+                std::thread::sleep(std::time::Duration::from_secs(60));
+                std::process::exit(97);
+            });
+            let mut src = String::new();
+            use std::io::Read;
+            std::io::stdin().read_to_string(&mut src).unwrap();
+            let work = move || {
+                let res = std::panic::catch_unwind(|| {
+                    let mut ctx = rscel::CelContext::new();
+                    if let Err(e) = ctx.add_program_str("main", &src) {
+                        return val::err_outcome(&e);
+                    }
+                    let mut b = rscel::BindContext::new();
+                    b.bind_param("a", rscel::CelValue::from_null());
+                    val::outcome(&ctx.exec("main", &b))
+                });
+                match res {
+                    Ok(o) => o,
+                    Err(p) => val::crash(&run::panic_msg(p)),
+                }
+            };
+            let o = if args.iter().any(|a| a == "--thread") {
+                std::thread::Builder::new().stack_size(2 * 1024 * 1024).spawn(work).unwrap().join().unwrap_or(val::crash("thread died"))
+            } else {
+                work()
+            };
+            // only the class travels back: the value of a deep ladder is itself deeply nested
+            let mut o = o;
+            if let Some(m) = o.as_object_mut() {
+                m.remove("v");
+            }
+            println!("{}", o);
+        }
         "consts" => {
             println!("ts_min {} ts_max {} ns_max {}", chrono::DateTime::<chrono::Utc>::MIN_UTC.timestamp(), chrono::DateTime::<chrono::Utc>::MAX_UTC.timestamp(), chrono::DateTime::<chrono::Utc>::MAX_UTC.timestamp_subsec_nanos());
             println!("dur_max_ms {} dur_min_ms {}", chrono::Duration::MAX.num_milliseconds(), chrono::Duration::MIN.num_milliseconds());
